@@ -19,7 +19,18 @@ try:
                                                  (r"bytes.get\(i\.\.\)", "bytes.get(cursor..)"), (r"        i \+= size;", "        cursor += size;")])
     sub("crates/types/src/predicate.rs", [(r"\be_end\b", "edges_end"), (r"\be_start\b", "edges_begin")])
     sub("crates/check/src/solution.rs", [(r"\bmut_keys\b", "seen_keys"), (r"\btotal_gas\b", "gas_sum"), (r"// Create the parent map", "// Build parent map first")])
-    sub("crates/vm/src/compute.rs", [(r"\bmemory_pointer\b", "write_ptr"), (r"\bmemory_to_alloc\b", "to_alloc")])
+    sub("crates/vm/src/compute.rs", [(r"\bmemory_pointer\b", "write_ptr"), (r"\bmemory_to_alloc\b", "to_alloc"),
+                                     # captured variables and closure parameters renamed
+                                     (r"        pc,\n        stack,", "        pc: parent_pc,\n        stack,"), (r"ExecError\(pc, OpError::Compute\(e\.into", "ExecError(parent_pc, OpError::Compute(e.into"),
+                                     (r"pc: pc \+ 1", "pc: parent_pc + 1"), (r"compute_effects\(memory, pc, halt, oks\)", "compute_effects(memory, parent_pc, halt, oks)"),
+                                     (r"\bcompute_index\b", "child_ix"), (r"        cache,\n        access,", "        cache: shared_cache,\n        access,"), (r"cache: cache\.clone\(\)", "cache: shared_cache.clone()")])
+    sub("crates/vm/src/stack.rs", [(r"\bcond_w\b", "c_word"), (r"\|w0, w1\| \{\n                Ok\(", "|lower, upper| {\n                Ok("),
+                                   (r"\{\n                        w1\n                    \} else \{\n                        w0\n", "{\n                        upper\n                    } else {\n                        lower\n"),
+                                   (r"\brev_ix\b", "depth"), (r"\barr_b_index\b", "top_start")])
+    sub("crates/vm/src/memory.rs", [(r"\baddress\b", "at"), (r"\bnew_len\b", "keep"), (r"\bvalues\b", "src_words")])
+    sub("crates/vm/src/sync.rs", [(r"\|a, b\| Ok\(\(a < b\)", "|x, y| Ok((x < y)"), (r"\|a, b\| Ok\(\(a != 0 && b != 0\)", "|p, q| Ok((p != 0 && q != 0)"),
+                                  (r"let \[w, addr\] = stack\.pop2\(\)\?;\n            memory\.store\(addr, w\)", "let [val, ix] = stack.pop2()?;\n            memory.store(ix, val)")])
+    sub("crates/check/src/solution.rs", [(r"\bsolution_index\b", "sol_ix")])
     sub("crates/asm/src/effects.rs", [(r"\bkrng_byte\b", "k_byte"), (r"let mut effects = Effects::empty\(\);", "let mut found = Effects::empty();"), (r"effects \|= Effects::", "found |= Effects::"),
                                       (r"if effects == Effects::all\(\)", "if found == Effects::all()"), (r"    }\n    effects\n}", "    }\n    found\n}")])
     r = subprocess.run(["cargo", "check", "--workspace", "--offline", "-q"], cwd=S + "/repo", env=dict(os.environ, CARGO_TARGET_DIR="/verif/.cache/target-neutral"), stdout=subprocess.PIPE, stderr=subprocess.STDOUT, text=True)
